@@ -169,6 +169,64 @@ def events():
     return fn
 
 
+def reconnect_chain(n):
+    """(b') the real transports' loss handling over several losses in a row: every loss that
+    comes with an error is followed by exactly one new dial - also the second and third one,
+    after a reconnect that succeeded - and after stop() a late loss dials nothing."""
+    def fn(w):
+        kind = w.pick(["threaded", "async-serial", "async-tcp"], "transport")
+        env = C.make_env(w)
+        with env.installed():
+            if kind == "async-tcp":
+                gw = tcp_gateway(w, "async")
+            else:
+                gw = C.make_gateway(w, "2.2", "sync" if kind == "threaded" else "async",
+                                    connected=False).gw
+            tr = gw.tasks.transport
+            proto = tr.protocol
+            dials, made, lost = [], [], []
+            tr._connect = C.Recorder(dials) if kind == "threaded" else C.AsyncRecorder(dials)
+            gw.on_conn_made = C.Recorder2(made)
+            gw.on_conn_lost = C.Recorder2(lost)
+            w.info = {"transport": kind, "losses": n}
+            ran = {"tasks": 0, "threads": 0}
+
+            def settle():
+                # the event loop / the connect thread gets to run
+                while ran["tasks"] < len(env.loop.tasks):
+                    t = env.loop.tasks[ran["tasks"]]
+                    ran["tasks"] += 1
+                    if not t.cancel_requested:
+                        t.run()
+                while ran["threads"] < len(env.threads):
+                    t = env.threads[ran["threads"]]
+                    ran["threads"] += 1
+                    if t.started:
+                        t.run_now()
+            try:
+                for i in range(n):
+                    w.call(proto.connection_made, C.FakeConn(f"conn{i}"))
+                    w.call(proto.connection_lost, OSError(f"link down {i}"))
+                    settle()
+                    w.check(len(lost) == i + 1, f"{kind}: on_conn_lost not called once per loss")
+                    w.check(len(dials) == i + 1,
+                            f"{kind}: loss #{i + 1} was followed by {len(dials) - i} reconnect "
+                            "attempt(s), expected 1")
+                w.check(len(made) == n, f"{kind}: on_conn_made not called once per connection")
+                w.call(proto.connection_made, C.FakeConn("last"))
+                r = w.call(gw.stop)
+                if kind != "threaded":
+                    w.run_coro(r)
+                before = len(dials)
+                w.call(proto.connection_lost, None)
+                settle()
+                w.check(len(dials) == before, f"{kind}: a reconnect attempt after stop()")
+            except Exception as exc:
+                w.escaped(exc, f"{kind}: loss sequence raised")
+            w.goal(kind)
+    return fn
+
+
 def stop_quiesces():
     """(d) after stop(): no writes, and a late connection-lost event reaches no device."""
     def fn(w):
@@ -500,6 +558,11 @@ def build(tier):
         Harness("events", events(), {"protocols": sorted(protocol_classes())},
                 goals=["made", "lost(None)", "lost(exc)", "made+lost(exc)+made", "peer-close"],
                 doc="callbacks exactly once per connection event; reconnect on error"),
+        Harness("reconnect-chain", reconnect_chain(3),
+                {"losses_in_a_row": 3, "transports": ["threaded", "async-serial", "async-tcp"],
+                 "then": "stop() and a late loss"},
+                goals=["threaded", "async-serial", "async-tcp"],
+                doc="real Transport loss handling: one new dial per loss, none after stop()"),
         Harness("stop-quiesces", stop_quiesces(), {"flavours": ["sync", "async"]},
                 goals=["none", "lost(None)", "lost(exc)"],
                 doc="after stop(): nothing written, protocol released"),
